@@ -4,7 +4,7 @@ From KV Require Import Base.PyVal Base.Prims Model.Validator Model.Render Proofs
 Import ListNotations.
 Open Scope nat_scope.
 
-(* a node the renderer's dispatch covers: built-in predicates with sortable choices,
+(* a node the renderer's dispatch covers: built-in predicates (choices of any kind),
    custom errors only if they are SerializableErr *)
 Definition node_renderable (i : invalid) : bool :=
   match i with
